@@ -115,6 +115,17 @@ func c05Gen(rng *Rng) *c05Prog {
 			p.Literals = append(p.Literals, fl)
 		}
 	}
+	// generic records sharing a field set, and a literal only they match
+	if rng.Bool() {
+		gn := rng.Perm(26)
+		for k := 0; k < 2+rng.Intn(3); k++ {
+			fmt.Fprintf(&b, "type G%c%d<T> = {Key: string; Val: T}\n", 'A'+gn[k], k)
+		}
+		b.WriteString("\nlet mkg (k:string) =\n  {Key=k; Val=42}\n\n")
+		if rng.Bool() {
+			b.WriteString("let mkgs (k:string) =\n  let e = {Key=k; Val=\"v\"}\n  e.Key\n\n")
+		}
+	}
 	// functions with many inference variables
 	for i := 0; i < 1+rng.Intn(4); i++ {
 		switch rng.Intn(4) {
@@ -163,6 +174,16 @@ func runC05(c *Ctx) {
 	// corpus: the finding that was repaired
 	progs = append([]*c05Prog{{Src: "package main\n\ntype B = {X: int; Y: int}\ntype C = {X: int; Y: int}\ntype A = {X: int; Y: int}\n\nlet mk0 () =\n  {X=1; Y=2}\n",
 		Recs: []c05Rec{{"B", []string{"X", "Y"}}, {"C", []string{"X", "Y"}}, {"A", []string{"X", "Y"}}}, Literals: [][]string{{"X", "Y"}}}}, progs...)
+	{
+		// many root statements, each emitting a compiler temporary (a union match binding the payload):
+		// anything that numbers them must not depend on scheduling
+		var b strings.Builder
+		b.WriteString("package main\n\ntype Sh =\n  | Ci of int\n  | Sq of int\n  | No\n\n")
+		for i := 0; i < 72; i++ {
+			fmt.Fprintf(&b, "let ar%d (s:Sh) =\n  match s with\n  | Ci r -> r * %d\n  | Sq w -> w + %d\n  | No -> 0\n\n", i, i+2, i)
+		}
+		progs = append([]*c05Prog{{Src: b.String()}}, progs...)
+	}
 	if c.Replay != "" {
 		progs = c05LoadReplay(c.Replay)
 	}
@@ -288,22 +309,39 @@ func runC05(c *Ctx) {
 			}
 		}
 	}
-	// a few real processes: repeated stock runs of one program, byte-compared
-	{
-		p := progs[0]
-		dir := filepath.Join(c.Work, "proc")
+	// real processes: repeated stock runs of the first programs, byte-compared; every other run finds an
+	// output file of an earlier run of ANOTHER source already in the directory (newer than the source)
+	for pi := 0; pi < 3 && pi < len(progs); pi++ {
+		p := progs[pi]
+		dir := filepath.Join(c.Work, fmt.Sprintf("proc%d", pi))
 		MustWrite(filepath.Join(dir, "m.fo"), p.Src)
 		first := ""
-		for i := 0; i < c.Pick(12, 60); i++ {
+		for i := 0; i < c.Pick(8, 40); i++ {
 			os.Remove(filepath.Join(dir, "gen_m.go"))
+			stale := i%2 == 1
+			if stale {
+				MustWrite(filepath.Join(dir, "gen_m.go"), "package main\n\n// output of an earlier run on an earlier version of m.fo\n")
+				c.Count("real_process_runs_over_stale_output")
+			}
 			r := c.Fc(dir, c.MiniFoi(c.Work), "m.fo")
 			b, _ := os.ReadFile(filepath.Join(dir, "gen_m.go"))
+			if r.Exit != 0 && stale {
+				b = nil // a rejected file is not written: the earlier output stays (C16), not compared here
+			}
 			cur := fmt.Sprintf("%d|%s", r.Exit, b)
-			c.Eval(fmt.Sprintf("proc|%d", i), true)
+			c.Eval(fmt.Sprintf("proc|%d|%d", pi, i), true)
 			if i == 0 {
 				first = cur
+				if r.Exit != 0 {
+					first = fmt.Sprintf("%d|", r.Exit)
+				}
 			} else if cur != first {
-				c.Violate("order", "two runs of the fc process on the same file differ", map[string]any{"program": p}, false)
+				what := "two runs of the fc process on the same file differ"
+				if stale {
+					what = "a run of the fc process in a directory that already holds an (unrelated, newer) gen_m.go differs from a run in a clean directory"
+				}
+				c.Violate("order", what, map[string]any{"program": p, "run": i, "stale_output_present": stale,
+					"first_difference": c04FirstDiff([]byte(first), []byte(cur))}, false)
 				break
 			}
 		}
